@@ -7,6 +7,12 @@ import (
 
 // Simple helper that will take 2 or more integers, and apply an operation
 func arithmaticHelperi(equation func(int, int) int) KeyBuilderFunction {
+	return arithmaticHelperiChecked(func(a, b int) (int, bool) { return equation(a, b), true })
+}
+
+// Like arithmaticHelperi, for operations that are not defined for every operand (eg. divide by 0)
+// When the equation returns false, the stage evaluates to ErrorValue
+func arithmaticHelperiChecked(equation func(int, int) (int, bool)) KeyBuilderFunction {
 	return KeyBuilderFunction(func(args []KeyBuilderStage) (KeyBuilderStage, error) {
 		if len(args) < 2 {
 			return stageErrArgRange(args, "2+")
@@ -28,12 +34,31 @@ func arithmaticHelperi(equation func(int, int) int) KeyBuilderFunction {
 				if !ok {
 					return ErrorNum
 				}
-				final = equation(final, val)
+				final, ok = equation(final, val)
+				if !ok {
+					return ErrorValue
+				}
 			}
 
 			return strconv.Itoa(final)
 		}), nil
 	})
+}
+
+// integer division; false when dividing by 0
+func safeDivi(a, b int) (int, bool) {
+	if b == 0 {
+		return 0, false
+	}
+	return a / b, true
+}
+
+// integer modulo; false when dividing by 0
+func safeModi(a, b int) (int, bool) {
+	if b == 0 {
+		return 0, false
+	}
+	return a % b, true
 }
 
 // Simple helper that will take 2 or more integers, and apply an operation
